@@ -270,6 +270,33 @@ def rule_algebra(ctx, rules):
         if d["loads"] != 1 or d["in_progress_left"] not in (0, None):
             ctx.report(rules.get("default", rule), "import-set/%s/load" % label, "%s loads the library %d time(s) and leaves %s in-progress mark(s)" % (
                 label, d["loads"], d["in_progress_left"]), where_of(w.f))
+    # names that look like other names with the prefix in front (an export that itself starts with the prefix, the same prefix put
+    # on twice, a rename that produces such a name): the algebra works on whole names, whatever they look like
+    exports_pp = [("a", Val("A")), ("p-a", Val("PA")), ("b", Val("B"))]
+    L = ("lib",)
+    for spec in (("only", ("prefix", L, "p-"), ["p-p-a", "p-a"]), ("only", ("prefix", L, "p-"), ["p-p-a"]),
+                 ("only", ("prefix", ("prefix", L, "p-"), "p-"), ["p-p-a", "p-p-p-a"]), ("only", ("prefix", ("prefix", L, "p-"), "p-"), ["p-p-b"]),
+                 ("except", ("prefix", L, "p-"), ["p-p-a"]), ("only", ("prefix", ("rename", L, [("b", "p-x")]), "p-"), ["p-p-x"]),
+                 ("rename", ("prefix", L, "p-"), [("p-p-a", "q")]), ("prefix", ("only", L, ["p-a"]), "p-"),
+                 ("only", ("rename", L, [("a", "p-a"), ("p-a", "a")]), ["p-a"]), ("except", ("rename", L, [("a", "p-a"), ("p-a", "a")]), ["a"]),
+                 ("only", ("except", ("prefix", L, "p-"), ["p-a"]), ["p-p-a", "p-b"]), ("prefix", ("prefix", L, "p-"), "p-"),
+                 ("only", ("prefix", L, "a"), ["aa", "ap-a"]), ("rename", ("only", L, ["a", "p-a"]), [("a", "p-a"), ("p-a", "p-p-a")])):
+        d = run_spec(w, spec, exports0=exports_pp)
+        label = show(spec) + "/exports=a,p-a,b"
+        rule = rules.get("nested", rules.get("default"))
+        if "stuck" in d:
+            ctx.undecided(rule, "import-set/%s" % label, "cannot follow eval_import_set (%s)" % d["stuck"], where_of(w.f))
+            continue
+        decided += 1
+        got = sorted((n, id(v)) for n, v in d["pairs"]) if d["pairs"] is not None else None
+        want = sorted((n, id(v)) for n, v in d["want"])
+        ctx.inst(rule, "import-set/%s" % label, {"names": sorted(n for n, _ in d["pairs"]) if d["pairs"] is not None else None,
+                                                 "parsed_by_the_crate": d.get("via_parser")})
+        ctx.oblige(got == want)
+        if got != want:
+            ctx.report(rule, "import-set/%s" % label, "%s on a library exporting a, p-a, b binds %s, the import-set algebra gives %s" % (
+                show(spec), sorted((n, repr(v)) for n, v in d["pairs"]) if d["pairs"] is not None else d.get("result"),
+                sorted((n, repr(v)) for n, v in d["want"])), where_of(w.f))
     # identifier lists of the sizes at which the code itself changes what it does (constants it compares a length with), on a
     # library with enough exports: only / except of exactly c - 1, c, c + 1 names
     try:
